@@ -66,6 +66,10 @@ impl Scenario {
             // two deviations: at three, one ten-step scenario alone is ten
             // million executions.
             Scenario::Pc(p) if p.wscript.len() + p.rscript.len() >= 7 => Some(2),
+            // One designated scenario goes to three deviations in every tier
+            // (a stale store published after an unlock needs three switches
+            // to be read back by the other side).
+            Scenario::Pc(p) if p.cap == 2 && !p.tagged && !p.wneed_full && p.wscript == [1, 1, 1] && p.rscript == [1, 2] => Some(3),
             _ => None,
         }
     }
